@@ -574,7 +574,13 @@ func (g *Gen) stmt(sc *scope, blockDepth int) Stmt {
 		return ExprStmt{Assign{name, e}}
 	case k < 76 && sc.inBlock:
 		g.count("stmt.bare-expr")
-		return ExprStmt{g.expr(sc, "any", g.r.Intn(g.MaxDepth+1))}
+		e := g.expr(sc, "any", g.r.Intn(g.MaxDepth+1))
+		if t := exprToks(e, 1); t[0] == "+" || t[0] == "-" {
+			// a statement starting with a sign would continue the previous statement
+			// when the optional ';' is left out
+			e = Paren{e}
+		}
+		return ExprStmt{e}
 	case k < 90 && blockDepth < 4:
 		typ := g.pick(typeNames)
 		name := ""
